@@ -206,7 +206,7 @@ CHECKS = {
              "measures, and the cosines/quadrant tests of argument of perigee, argument of latitude and true anomaly are those of the angles given; the four branches are exhaustive "
              "and disjoint, degenerate elements are returned as exactly zero, every returned angle is in [0, 2pi), singularityCheck preserves the signed longitude up to whole turns "
              "(node angle counted backwards for retrograde equatorial orbits, with a witness of the unrepaired mirror image); the equinoctial frame is orthonormal and right-handed, "
-             "p/q invert the unit angular momentum (direct and retrograde), h^2+k^2=e^2, radius from equinoctial elements; true/eccentric anomaly maps are mutually inverse as unit "
+             "p/q invert the unit angular momentum (direct and retrograde), h^2+k^2=e^2, radius and areal velocity from equinoctial elements, exact recovery of the eccentric longitude (the arctan2 arguments are (sin F, cos F) themselves); true/eccentric anomaly maps are mutually inverse as unit "
              "vectors. Tied to the code by exact-rational evaluation of every modelled function on the real code's own inputs (coe2eci, flags/branch, singularityCheck, eci2coe angle "
              "selection, sma, eccentricity vector, angular momentum, equinoctial basis, p/q, eqe2eci) and by round trips of the real conversions, Newton solvers and the ECI/COE/EQE "
              "configuration descriptions over orbits straddling every threshold.",
@@ -238,14 +238,14 @@ CHECKS = {
         text="Theorems (Lean 4): the third-body expression the code evaluates (Battin's q) equals the direct formula (r3-r)/d^3 - r3/R^3 for every geometry (via "
              "|r|^2 + 2 r.(r3-r) = R^2 - d^2); the relativistic term equals the Schwarzschild correction mu/(c^2 r^3)((4mu/r - v^2) r + 4 (r.v) v); radiation pressure is the "
              "cannonball model: along Sun->satellite, magnitude P*C_R*A/m*(AU/d)^2*fraction/1000, zero in full shadow; the sum contains point mass, geopotential, the configured "
-             "third bodies (a plain sum) and exactly the switched-on terms; the Cunningham V/W recursion with C20 alone gives the textbook J2 gradient in closed form for every "
-             "position; the Earth-fixed sandwich with an orthogonal matrix preserves lengths and inverts; Clenshaw evaluation equals the Chebyshev series for any number of "
+             "third bodies (a plain sum) and exactly the switched-on terms; the Cunningham V/W recursion gives the textbook gradient in closed form for the complete degree-2 field (C20, C21/S21, C22/S22) "
+             "and J3, term by term, for every position; the Earth-fixed sandwich with an orthogonal matrix preserves lengths and inverts; Clenshaw evaluation equals the Chebyshev series for any number of "
              "coefficients and the scaled segment argument lies in [-1, 1). Tied to the code by exact-rational correspondence of each term, of the V/W tables, of the harmonic "
              "sum (degree <= 12), of the segment scaling and the Chebyshev value with the real functions, and by the real _differentialEquation compared with an independent "
              "reference for every configuration subset: gradient of a potential built from the file's normalised coefficients with a separate Legendre recursion (all four "
              "files, degree <= 20), direct third-body formula, own two-disk visible fraction incl. penumbra, Schwarzschild term, batch columns bit for bit; Sun/Moon continuity "
              "across segment boundaries and agreement with low-precision analytic ephemerides.",
-        note=BASE_TB + "general degree/order equality of recursion and potential gradient is numerical (1e-7 relative) - the theorem covers J2; Sun/Moon accuracy only against "
+        note=BASE_TB + "general degree/order equality of recursion and potential gradient is numerical (1e-7 relative) - the theorems cover degree 2 and J3; Sun/Moon accuracy only against "
              "Vallado's low-precision formulas (2e-3 / 1e-2); the Earth-fixed rotation of the instant is taken from the code (C04).",
         technique="Lean 4 proof of the term identities + exact-rational correspondence + independent numerical reference on the real right-hand side",
         ref="5/C13",
